@@ -73,15 +73,19 @@ GLook == /\ grp.alive /\ grp.models.stack # 0
          /\ Log(Ev("Look", grp.tk, 0, grp.centre, 0, ""))
          /\ UNCHANGED <<heap, intent, grp>>
 
-Next == /\ Len(hist) < MaxDepth
-        /\ \/ \E tk \in Refs : GNew(tk) \/ GSetThr(tk)
-           \/ \E c \in {"peak", "trough"} : GSetCentre(c)
-           \/ \E r \in Refs, val \in Lvl : GEdit(r, "lvl", val)
-           \/ \E r \in Refs, val \in Mnc : GEdit(r, "mnc", val)
-           \/ \E k \in Stacks : \E ax \in AxesOf(k) : GFit(k, ax)
-           \/ \E r \in {0, 1} : GRecompute(r)
-           \/ GLook
+Step == \/ \E tk \in Refs : GNew(tk) \/ GSetThr(tk)
+        \/ \E c \in {"peak", "trough"} : GSetCentre(c)
+        \/ \E r \in Refs, val \in Lvl : GEdit(r, "lvl", val)
+        \/ \E r \in Refs, val \in Mnc : GEdit(r, "mnc", val)
+        \/ \E k \in Stacks : \E ax \in AxesOf(k) : GFit(k, ax)
+        \/ \E r \in {0, 1} : GRecompute(r)
+        \/ GLook
+Next == Len(hist) < MaxDepth /\ Step
 Spec == Init /\ [][Next]_vars
+\* histories of ANY length: everything the actions and the properties read of `hist` is the name of its last event, so under the view ViewCore the
+\* state space is finite and TLC explores it completely (cfg: SPECIFICATION SpecAll, VIEW ViewCore) - the invariants then hold without a depth bound
+SpecAll == Init /\ [][Step]_vars
+ViewCore == <<heap, intent, grp, IF hist = <<>> THEN "" ELSE hist[Len(hist)].a>>
 
 \* ---- named deviations: what the code did before the repairs D22 / D17 ----
 RecomputeStale(r) == /\ grp.alive /\ grp.models.stack # 0 /\ grp.models.gen < 2
